@@ -25,6 +25,10 @@ RULE = ("random fully bifurcating trees (2-9 leaves quick, up to 14 thorough; ra
         "names, one shared weight list and one shared score_by_character_list object (or None), interleaved with parsimony_score / "
         "treescore.parsimony_score, in-place matrix edits, fitch_up_pass (with and without a map) and dumps of the node attributes; oracle per "
         "call: the independent minimum AND the caller's map and weight list deep-equal to a snapshot taken before the call. "
+        "Extended histories also make fitch_down_pass calls WITHOUT a map (leaves must carry their sets; every attribute setting) and "
+        "parsimony_score calls with a matrix of another TaxonNamespace (must be refused). Every run opens with the same fixed cases: seven trees with "
+        "a polytomy at the root (six basal trifurcations, one root of degree four) x every two-state column x weights 2,3,5,7,11,13, all matrices of a "
+        "shape scored in sequence on one tree object through every entry point. "
         "Non-trivial = at least two scoring calls on one tree object (or its clones), or a re-rooted/shuffled copy")
 MODELLED_NOT_VERIFIED = [
     "C16: Model/C16.lean (stepNode/foldKids/pairLoop/runNodes, attribute store) is hand-written from parsimony.fitch_down_pass / "
@@ -40,11 +44,12 @@ MODELLED_NOT_VERIFIED = [
     "hand-written in Model/C16.lean + Model/C16Ext.lean and tied by comparison of scores, per-character lists AND node attributes after down "
     "and up passes (dumps, up to a renumbering of each character's states)",
     "C16: fitch_up_pass is outside the statement: its model (runUp/upPass) is compared with the code (dumps of the node attributes), its kernel "
-    "is tie A, and up_pass_exact proves the model exact on fully bifurcating trees with a binary root (a basal trifurcation and polytomies "
-    "- AssertionError below the root - are compared only). Weights are natural numbers (negative weights have no minimum reading); "
+    "is tie A, and up_pass_exact proves the model exact on fully bifurcating trees with a binary root; the refusal of a non-binary internal "
+    "node below the root is upStep_refuses_nonbinary, a root of any degree is skipped (upStep_skips_root); WHICH sets the up pass leaves below a "
+    "basal trifurcation is compared only. Weights are natural numbers (negative weights have no minimum reading); "
     "post-order iteration is taken from C15; which exception class a call outside the statement raises is not compared (only that it raises); "
-    "fitch_down_pass with taxon_state_sets_map=None (leaves must already carry their sets) and the TaxonNamespaceIdentityError of parsimony_score "
-    "are not modelled",
+    "fitch_down_pass with taxon_state_sets_map=None (Model stepNodeN/parsimonyNP; weights=None there is compared only, nomap_after_score is for a "
+    "given weight list) and the TaxonNamespaceIdentityError refusal of parsimony_score (scoreForeign) are modelled and compared",
 ]
 EXPLANATION = ("Theorems about the functions the driver runs (parsimony = runNodes/stepNode/foldKids/pairLoop/shortHit over the post-order with "
                "the node-attribute store; reroot; runHist; rowOfSymbols). Refinement for EVERY input: result_independent_of_attrs (any tree "
@@ -79,7 +84,11 @@ EXPLANATION = ("Theorems about the functions the driver runs (parsimony = runNod
                "takes in some most-parsimonious reconstruction, for the recursion finAt over the driver's kernel finalSet), up_pass_machine "
                "(down_stored/up_stored: the machines the driver runs - parsimonyP then upPass on the attribute store, any earlier attributes - "
                "leave on every node the row whose character c is finalAt (col c bv)), up_pass_exact (both combined: all characters, every "
-               "internal node, on View trees with distinct nodes). No _partial theorem. "
+               "internal node, on View trees with distinct nodes). Entry-point glue: xstep_foreign_namespace_refused (matrix of another taxon namespace: "
+               "refused, nothing read or written), xstep_nomap_nostore_refused (no map and no attribute store: refused on every tree), "
+               "nomap_after_score (a pass without a map on the store a scoring call left returns that call's score, given weights, and rewrites "
+               "nothing), upStep_refuses_nonbinary / upStep_skips_root. polytomy_score_spec/_minimal carry the weights (wt w c * Fitch count of the "
+               "ladder resolution). No _partial theorem. "
                "Hypotheses: distinct node identities; for the value theorems ViewU, RectM (rows of one length), one weight per character.")
 
 # ------------------------------------------------------------------ independent state-set semantics (the oracle's own tables)
@@ -1146,6 +1155,41 @@ def run_xcase(ctx, dendropy, case, pending):
                     elif nscore > 1:
                         kind = "history"
                     ctx.fail(kind, what, dict(case, failed_call=k))
+        elif o == "SN":
+            # fitch_down_pass without a map: the leaves must already carry their state sets (no per-character list: it needs the map)
+            tree, toks = objs[op["obj"]]
+            ws = shared_w if op.get("weights") == "shared" else op.get("weights")
+            try:
+                with time_limit(30):
+                    sc = parsimony.fitch_down_pass(tree.postorder_node_iter(), state_sets_attr_name=ATTR_NAME.get(op.get("attr")),
+                                                   taxon_state_sets_map=None, weights=ws)
+                got = "ok %d" % sc
+            except Exception as e:
+                if not is_library_exception(e):
+                    raise
+                got = "Error"
+            ctx.count("down pass without a map " + got.split()[0])
+            results.append(got)
+            lines.append("SN %d %s %s" % (op["obj"], ATTR_STORE[op.get("attr")], "-" if ws is None else (",".join(str(x) for x in ws) or ".")))
+        elif o == "SF":
+            # parsimony_score with a matrix of ANOTHER taxon namespace (same labels): refused before anything is read
+            tree, toks = objs[op["obj"]]
+            ent = mats[op["mat"]]
+            other = dendropy.TaxonNamespace([t.label for t in tns])
+            fm = build_matrix(dendropy, other, {"alph": ent["alph"], "rows": ent["rows"]})
+            try:
+                parsimony.parsimony_score(tree, fm, gaps_as_missing=True)
+                got = "ok"
+            except Exception as e:
+                if not is_library_exception(e):
+                    raise
+                got = "Error"
+            if got != "Error":
+                ctx.fail("namespace", "parsimony_score accepted a matrix whose taxon namespace is not the tree's (op %d): its rows belong to "
+                         "other taxon objects, the score is not a function of this tree and this matrix" % k, dict(case, failed_call=k))
+            ctx.count("foreign-namespace matrix " + got)
+            results.append(got)
+            lines.append("SF %d %d" % (op["obj"], midx[op["mat"]]))
         elif o == "U":
             tree, toks = objs[op["obj"]]
             tsm = maps[op["map"]]["tsm"] if op.get("map") is not None else None
@@ -1183,11 +1227,11 @@ def canon_xmodel(text, case):
     ops = case["ops"]
     for i, r in enumerate(parts):
         op = ops[i] if i < len(ops) else {}
-        if r in ("KeyError", "ValueError", "IndexError", "AttributeError", "AssertionError"):
+        if r in ("KeyError", "ValueError", "IndexError", "AttributeError", "AssertionError", "TypeError", "TaxonNamespaceIdentityError"):
             r = "Error"
         elif op.get("op") == "D" and not r.startswith("bad"):
             r = "D " + dump_of_model(r)
-        elif op.get("op") == "S" and r.startswith("ok ") and not op.get("by", True):
+        elif ((op.get("op") == "S" and not op.get("by", True)) or op.get("op") == "SN") and r.startswith("ok "):
             r = " ".join(r.split()[:2])
         out.append(r)
     return " | ".join(out)
@@ -1286,6 +1330,11 @@ def gen_map_history(dendropy, rng, max_leaves):
             ops.append({"op": "D", "obj": j, "attr": attr})
         else:
             ops.append({"op": "D", "obj": rng.randrange(nobj), "attr": rng.choice(["default", "other"])})
+        if rng.random() < 0.18:
+            ops.append({"op": "SN", "obj": rng.randrange(nobj), "attr": focus or rng.choice([None, "default", "default", "other"]),
+                        "weights": rng.choice([None, "shared"])})
+        elif rng.random() < 0.05:
+            ops.append({"op": "SF", "obj": rng.randrange(nobj), "mat": rng.randrange(nmat)})
     if rng.random() < 0.5:
         j = rng.randrange(nobj)
         attr = focus or rng.choice(["default", "other"])
@@ -1370,6 +1419,40 @@ def alphabet_sweep(ctx, dendropy, alph, pending):
                 ctx.fail("state_sets", "%s matrix rejects symbol %r" % (alph, ch), {"sweep": alph})
 
 
+def fixed_opening(ctx, dendropy, pending):
+    """the same cases on every run, before anything random: basal trifurcations (the usual unrooted form; the third child goes through the
+    fold over extra children) x every two-state column x NON-UNIT weights (distinct primes, so that a change counted with the wrong
+    weight - or with 1 - shows in the total and in the per-character list), all matrices of a shape scored in sequence on one tree object
+    through parsimony_score and fitch_down_pass with / without node attributes; then the same with a polytomy of four at the root for the
+    correspondence"""
+    primes = [2, 3, 5, 7, 11, 13]
+
+    def lf(b):
+        return (0, b, [])
+
+    def nd(*cs):
+        return (0, None, list(cs))
+    shapes = [nd(lf(0), lf(1), lf(2)),
+              nd(nd(lf(0), lf(1)), lf(2), lf(3)), nd(lf(0), nd(lf(1), lf(2)), lf(3)), nd(lf(0), lf(1), nd(lf(2), lf(3))),
+              nd(nd(lf(0), lf(1)), nd(lf(2), lf(3)), lf(4)), nd(nd(nd(lf(0), lf(1)), lf(2)), lf(3), lf(4)),
+              nd(lf(0), lf(1), lf(2), lf(3))]
+    vias = ["parsimony", "down_noattr", "down", "treescore", "down_other"]
+    for shape in shapes:
+        n = len(leaf_bits(shape))
+        toks = nested_tokens(shape)
+        cols = ["".join("01"[(v >> i) & 1] for i in range(n)) for v in range(1, 2 ** n - 1)]
+        ops = []
+        for g in range(0, len(cols), 6):
+            grp = cols[g:g + 6]
+            rows = [[b, "".join(c[b] for c in grp)] for b in range(n)]
+            ops.append({"op": "S", "obj": 0, "alph": "standard", "gaps": True, "weights": primes[:len(grp)], "rows": rows,
+                        "via": vias[(g // 6) % len(vias)]})
+        ops.append(dict(ops[0], weights=None, via="down_noattr"))
+        run_case(ctx, dendropy, {"tree": toks, "base": None, "how": None, "ops": ops}, pending)
+        ctx.count("fixed opening: root polytomy x non-unit weights")
+    flush(ctx, pending)
+
+
 def run(ctx):
     dendropy = __import__("dendropy")
     rng = ctx.rng
@@ -1377,6 +1460,7 @@ def run(ctx):
     pending = []
     for alph in sorted(ALPH_CLASS):
         alphabet_sweep(ctx, dendropy, alph, pending)
+    fixed_opening(ctx, dendropy, pending)
     ncases = ctx.pick(7000, 400000)
     max_leaves = ctx.pick(9, 14)
     reserve = ctx.pick(0, 420)      # time kept for the exhaustive part
